@@ -203,9 +203,12 @@ func (e *Explorer) judge(path []string, res *NodeResult, count bool) []viol {
 	if len(path) > 0 {
 		lastOp = OpClass(path[len(path)-1])
 	}
-	skip := ""
+	// The start image (point 0) was judged at the parent node with the bounds valid there; it is
+	// judged again only if it is also the crash image of a later instant with a stricter
+	// bound (e.g. nothing reached the OS before the acknowledgement).
+	skip, skipAcked := "", 0
 	if len(path) > 0 && len(res.Cands) > 0 {
-		skip = res.Cands[0].Img.Hash // the start image was judged at the parent node
+		skip, skipAcked = res.Cands[0].Img.Hash, res.Cands[0].Acked
 	}
 	if count {
 		// images that differ from both neighbours in the recorded order
@@ -217,7 +220,13 @@ func (e *Explorer) judge(path []string, res *NodeResult, count bool) []viol {
 			p.Add("cand_"+res.Cands[i].Kind, 1)
 		}
 	}
-	cands := Distinct(res.Cands, skip)
+	var cands []Cand
+	for _, c := range Distinct(res.Cands, "") {
+		if c.Img.Hash == skip && c.Acked <= skipAcked {
+			continue
+		}
+		cands = append(cands, c)
+	}
 	sync := s.Cfg.SyncWrites
 	for _, c := range cands {
 		if count {
@@ -279,6 +288,15 @@ func (e *Explorer) judge(path []string, res *NodeResult, count bool) []viol {
 			rec.Close()
 		case C11:
 			base := rec.State
+			// A recovered memtable whose WAL segment id equals the file id of an installed table
+			// will be flushed into that very file (flush names the SST after the segment): the
+			// schedules below would then truncate/unlink a mapped SST (SIGBUS, not recoverable in
+			// process). The precondition itself is reported instead of running them.
+			if seg, ok := dupFid(rec.H); ok {
+				add("recovered-memtable-segment-equals-live-table-fid", fmt.Sprintf("after reopen WAL segment %d is replayed into a memtable although table %d built from it is installed; the next flush rewrites the file of a live table", seg, seg), nil)
+				rec.Close()
+				continue
+			}
 			rec.Close()
 			key := s.Name + c.Img.Hash
 			if e.seenPost[key] {
@@ -299,17 +317,35 @@ func (e *Explorer) judge(path []string, res *NodeResult, count bool) []viol {
 	return out
 }
 
+func dupFid(h *dbh.H) (uint32, bool) {
+	if h == nil || h.DB == nil {
+		return 0, false
+	}
+	segs, tables := h.DB.VerifLSM().VerifSegmentsAndTables()
+	for _, s := range segs {
+		for _, t := range tables {
+			if uint64(s) == t {
+				return s, true
+			}
+		}
+	}
+	return 0, false
+}
+
 // ---- C11: maintenance schedules on a recovered image --------------------------------
 
 type postInst struct {
-	e     *Explorer
-	img   *crashfs.Image
-	rec   *Recovered
-	base  string
-	sig   string
-	desc  string
-	depth int
-	last  string
+	e       *Explorer
+	img     *crashfs.Image
+	rec     *Recovered
+	base    string
+	sig     string
+	desc    string
+	depth   int
+	last    string
+	hist    []string
+	put     []byte // value written by the "put" step (nil: not yet)
+	crashed bool   // a "crash" step happened after the put
 }
 
 func (pi *postInst) Enabled() []string {
@@ -328,6 +364,9 @@ func (pi *postInst) Enabled() []string {
 		}
 		ops = append(ops, op)
 	}
+	if pi.e.Spec.PostPut && pi.put == nil {
+		ops = append(ops, "put")
+	}
 	if pi.e.Spec.PostCrash {
 		ops = append(ops, "crash")
 	}
@@ -336,6 +375,8 @@ func (pi *postInst) Enabled() []string {
 
 func (pi *postInst) Apply(op string) (bool, error) {
 	pi.last = op
+	pi.hist = append(pi.hist, op)
+	pi.e.trace("post schedule %v on image {%s}", pi.hist, pi.img.Describe())
 	h := pi.rec.H
 	if op == "crash" {
 		// second process crash at a quiescent instant: the directory as it is now
@@ -348,9 +389,34 @@ func (pi *postInst) Apply(op string) (bool, error) {
 		pi.rec.Close()
 		nrec := pi.e.R.Recover(img)
 		pi.rec = nrec
+		if pi.put != nil {
+			pi.crashed = true
+		}
 		if nrec.OpenErr != "" {
 			pi.sig, pi.desc = "post-reopen-failed:"+Classify(nrec.OpenErr), "reopen after a second crash failed: "+nrec.OpenErr
 		}
+		return true, nil
+	}
+	if op == "put" {
+		// a NEW client write: the only thing allowed to change the visible contents
+		sp := pi.e.Spec
+		val := sp.value('b', 99, PostKey)
+		var err error
+		if sp.Mode == "plain" {
+			err = h.DB.Set([]byte(PostKey), val)
+		} else {
+			txn := h.DB.NewTransaction(true)
+			if err = txn.Set([]byte(PostKey), val); err == nil {
+				err = txn.Commit()
+			} else {
+				txn.Discard()
+			}
+		}
+		if err != nil {
+			pi.e.P.Add("post_put_errors", 1)
+			return false, nil
+		}
+		pi.put = val
 		return true, nil
 	}
 	changed, err := h.Maint(op)
@@ -376,7 +442,14 @@ func (pi *postInst) Check() (string, string) {
 	if pi.rec == nil || pi.rec.H == nil {
 		return "", ""
 	}
-	now := pi.e.Spec.ReadState(pi.rec.H).Canon()
+	st := pi.e.Spec.ReadState(pi.rec.H)
+	now := withoutKey(st.Canon(), PostKey)
+	if pi.put != nil {
+		// the new write itself (it may legitimately be lost by a later crash without SyncWrites)
+		if g := st.Gets[PostKey]; !eqVal(g, pi.put, true) && !(pi.crashed && !pi.e.Spec.Cfg.SyncWrites) {
+			return "post-put-not-readable after=" + OpClass(pi.last), fmt.Sprintf("key %s written after reopen reads %s after step %q", PostKey, g, pi.last)
+		}
+	}
 	if now != pi.base {
 		return "contents-changed after=" + OpClass(pi.last) + " " + diffClass(pi.base, now), fmt.Sprintf("visible contents changed without a client write after maintenance step %q\n--- after reopen\n%s--- now\n%s", pi.last, pi.base, now)
 	}
@@ -384,6 +457,19 @@ func (pi *postInst) Check() (string, string) {
 }
 
 func (pi *postInst) Key() string { return "" }
+
+// withoutKey drops the lines of a canonical state that speak about key k.
+func withoutKey(canon, k string) string {
+	var sb strings.Builder
+	for _, l := range strings.Split(canon, "\n") {
+		if l == "" || strings.HasPrefix(l, "get "+k+" = ") || strings.HasPrefix(l, "iter 0/"+k+"@") {
+			continue
+		}
+		sb.WriteString(l)
+		sb.WriteByte('\n')
+	}
+	return sb.String()
+}
 func (pi *postInst) Close() {
 	if pi.rec != nil {
 		pi.rec.Close()
@@ -428,8 +514,10 @@ func diffClass(a, b string) string {
 		switch {
 		case !ok:
 			return "absent"
-		case v == "notfound" || v == "error":
+		case v == "notfound":
 			return v
+		case strings.HasPrefix(v, "error"):
+			return "error"
 		}
 		return "value"
 	}
@@ -465,7 +553,7 @@ func asImpl(err error, target **dbh.ImplError) bool {
 
 func (e *Explorer) post(img *crashfs.Image, base *State, count bool) []viol {
 	sub := vr.NewPartial()
-	baseCanon := base.Canon()
+	baseCanon := withoutKey(base.Canon(), PostKey)
 	seqmc.Explore(seqmc.Config{
 		New: func() seqmc.Instance {
 			rec := e.R.Recover(img)
